@@ -243,24 +243,44 @@ class Flow:
         if at is None:
             at = self.node_for(expr)
         stop = stop or set()
-        return self._expand(clone(expr), expr, at, depth, stop)
+        return self._expand(clone(expr), expr, at, depth, stop, at)
 
-    def _expand(self, new: ast.AST, orig: ast.AST, at: int, depth: int, stop: set[str]) -> ast.AST:
+    def _version(self, name: str, at: int, root: int) -> str | None:
+        """If `name` denotes a different value at `at` than at `root` (it was redefined in between), a versioned label."""
+        if at == root:
+            return None
+        a = sorted(self.defs.index(d) for d in self.reaching(name, at) if d.kind != "mutate")
+        b = sorted(self.defs.index(d) for d in self.reaching(name, root) if d.kind != "mutate")
+        if a == b or not a:
+            return None
+        return f"{name}@" + "_".join(str(self.defs[i].node) for i in a)
+
+    def _expand(self, new: ast.AST, orig: ast.AST, at: int, depth: int, stop: set[str], root: int) -> ast.AST:
         flow = self
+
+        def leave(node: ast.Name) -> ast.Name:
+            # a name that stays symbolic inside a substituted definition must not be confused with the
+            # same name at the use site when it has been reassigned in between (SSA versions)
+            v = flow._version(node.id, at, root)
+            if v is not None:
+                return ast.copy_location(ast.Name(id=v, ctx=node.ctx), node)
+            return node
 
         class T(ast.NodeTransformer):
             def visit_Name(self, node: ast.Name):  # noqa: N802
-                if not isinstance(node.ctx, ast.Load) or depth <= 0 or node.id in stop:
+                if not isinstance(node.ctx, ast.Load):
                     return node
                 if getattr(node, "_bound", False):
                     return node
+                if depth <= 0 or node.id in stop:
+                    return leave(node)
                 ds = flow.reaching(node.id, at)
                 if len(ds) != 1:
-                    return node
+                    return leave(node)
                 d = ds[0]
                 if d.kind != "assign" or d.value is None:
-                    return node
-                sub = flow._expand(clone(d.value), d.value, d.node, depth - 1, stop)
+                    return leave(node)
+                sub = flow._expand(clone(d.value), d.value, d.node, depth - 1, stop, root)
                 return sub
 
         # mark comprehension-bound names using the original (which has parents)
